@@ -580,41 +580,14 @@ func runC13(c *Ctx) error {
 		specs = append(specs, spec{5000, 30}, spec{1200, 40}, spec{25, 8}, spec{70, 10})
 	}
 	zero := zeroHashStr
-	for sIdx, sp := range specs {
-		// a main chain of sp.n headers with sp.forks short stale branches at (mostly) locator heights
-		nodes := make([]Node, 0, sp.n+sp.forks*3)
-		for i := 0; i < sp.n; i++ {
-			nodes = append(nodes, Node{Parent: i - 1, Bits: bitsSmall[1]})
-		}
-		for f := 0; f < sp.forks; f++ {
-			at := rng.Intn(sp.n)
-			if f%2 == 0 && sp.n > 14 {
-				at = sp.n - 1 - (10 + (1 << uint(rng.Intn(8)))) // near locator heights
-				if at < 0 {
-					at = rng.Intn(sp.n)
-				}
-			}
-			par := at - 1
-			for d := 0; d < 1+rng.Intn(3); d++ {
-				nodes = append(nodes, Node{Parent: par, Bits: bitsSmall[0]})
-				par = len(nodes) - 1
-			}
-		}
-		nodes = append(nodes, Node{Parent: -2, Bits: bitsSmall[0]}) // an orphan
-		buildTree(nodes, uint32(sIdx)+uint32(c.Seed)*31, nil, false)
-		order := make([]int, len(nodes))
-		for i := range order {
-			order[i] = i
-		}
-		ops := addsOnly(historyOps(nodes, order, nil, false))
-		name := fmt.Sprintf("chain #%d n=%d forks=%d", sIdx, sp.n, sp.forks)
+	exercise := func(name string, ops []string, nStored, nQ int, sample bool) error {
 		t, err := ingest(c, ci, l, name, ops)
 		if err != nil {
 			return err
 		}
 		ctxOps := ops
 		if len(ctxOps) > 60 {
-			ctxOps = []string{fmt.Sprintf("# %s (store of %d headers generated with seed %d)", name, len(nodes), c.Seed)}
+			ctxOps = []string{fmt.Sprintf("# %s (store of %d headers generated with seed %d)", name, nStored, c.Seed)}
 		}
 		out, err := both(c, ci, l, name, ctxOps, "locator")
 		if err != nil {
@@ -624,10 +597,6 @@ func runC13(c *Ctx) error {
 		c.R.Case(name+"locator", len(strings.Split(out, ",")) > 12)
 		c.R.Count("locator", 1)
 		locHashes := strings.Split(out, ",")
-		nQ := 40
-		if c.Thorough {
-			nQ = 150
-		}
 		var nonLc []string
 		for _, r := range t.rows {
 			if !t.onBest[r.Hash] {
@@ -715,8 +684,97 @@ func runC13(c *Ctx) error {
 				}
 			}
 		}
-		if sIdx == 0 {
+		if sample {
 			c.R.Sample(map[string]any{"store": name, "ops": ops, "locator": out}, 3)
+		}
+			return nil
+	}
+	for sIdx, sp := range specs {
+		// a main chain of sp.n headers with sp.forks short stale branches at (mostly) locator heights
+		nodes := make([]Node, 0, sp.n+sp.forks*3)
+		for i := 0; i < sp.n; i++ {
+			nodes = append(nodes, Node{Parent: i - 1, Bits: bitsSmall[1]})
+		}
+		for f := 0; f < sp.forks; f++ {
+			at := rng.Intn(sp.n)
+			if f%2 == 0 && sp.n > 14 {
+				at = sp.n - 1 - (10 + (1 << uint(rng.Intn(8)))) // near locator heights
+				if at < 0 {
+					at = rng.Intn(sp.n)
+				}
+			}
+			par := at - 1
+			for d := 0; d < 1+rng.Intn(3); d++ {
+				nodes = append(nodes, Node{Parent: par, Bits: bitsSmall[0]})
+				par = len(nodes) - 1
+			}
+		}
+		nodes = append(nodes, Node{Parent: -2, Bits: bitsSmall[0]}) // an orphan
+		buildTree(nodes, uint32(sIdx)+uint32(c.Seed)*31, nil, false)
+		order := make([]int, len(nodes))
+		for i := range order {
+			order[i] = i
+		}
+		ops := addsOnly(historyOps(nodes, order, nil, false))
+		name := fmt.Sprintf("chain #%d n=%d forks=%d", sIdx, sp.n, sp.forks)
+		nQ := 40
+		if c.Thorough {
+			nQ = 150
+		}
+		if err := exercise(name, ops, len(nodes), nQ, sIdx == 0); err != nil {
+			return err
+		}
+	}
+	// small fork-rich stores with mixed difficulty (work 1, 2, 3 and 2^32-ish; siblings of the tip, ties, reorganisations,
+	// orphans, duplicates): the locator must start at the tip C01 defines whatever else sits at the tip's height
+	nSmall := 40
+	if c.Thorough {
+		nSmall = 300
+	}
+	for k := 0; k < nSmall; k++ {
+		n := 4 + rng.Intn(22)
+		_, ops := genStore(rng, n, uint32(7000+k)+uint32(c.Seed)*131)
+		if err := exercise(fmt.Sprintf("forks #%d n=%d", k, n), ops, n, 6, false); err != nil {
+			return err
+		}
+		c.R.Count("store:small fork-rich", 1)
+	}
+	// directed: a stale sibling of the tip whose cumulative work has fewer decimal digits (9 against 10, 99 against 100)
+	for k, total := range []int{10, 100} {
+		var nodes []Node
+		left := total
+		for left > 0 { // main chain: work 3 per header, then the rest
+			w := 3
+			if left < 3 {
+				w = left
+			}
+			nodes = append(nodes, Node{Parent: len(nodes) - 1, Bits: bitsSmall[w-1]})
+			left -= w
+		}
+		tipIdx := len(nodes) - 1
+		// sibling of the tip with one unit of work less than the tip's cumulative work
+		wTip := map[uint32]int{bitsSmall[0]: 1, bitsSmall[1]: 2, bitsSmall[2]: 3}[nodes[tipIdx].Bits]
+		if wTip > 1 {
+			nodes = append(nodes, Node{Parent: tipIdx - 1, Bits: bitsSmall[wTip-2]})
+		} else {
+			// tip adds 1: make the sibling impossible to be lighter; put the lighter sibling one level down instead
+			nodes[tipIdx].Bits = bitsSmall[1]
+			nodes = append(nodes, Node{Parent: tipIdx - 1, Bits: bitsSmall[0]})
+		}
+		buildTree(nodes, uint32(9100+k)+uint32(c.Seed)*17, nil, false)
+		for _, rev := range []bool{false, true} {
+			order := make([]int, len(nodes))
+			for i := range order {
+				order[i] = i
+			}
+			if rev { // the lighter sibling arrives first
+				order[len(order)-1], order[len(order)-2] = order[len(order)-2], order[len(order)-1]
+			}
+			ops := addsOnly(historyOps(nodes, order, nil, false))
+			if err := exercise(fmt.Sprintf("tip-sibling total=%d lighterFirst=%v", total, rev), ops, len(nodes), 4, false); err != nil {
+				return err
+			}
+			c.R.Count("store:stale sibling of the tip with fewer digits of cumulative work", 1)
 		}
 	}
 	c.R.ModelOps = l.Ops
